@@ -52,6 +52,30 @@ CLAIMED = {
         technique='Lean 4 theorems: 48x48 orientation table and 216 letter triples by decide +kernel lifted to all strings / shapes / zooms by lemmas + exhaustive 48x48 correspondence',
         text='For every string the voxel-order check passes iff the upper-cased string is one of the 48 codes; for all 48x48 start/requested orientations ornt_transform succeeds and the reordered orientation is the requested one; for each of the 48 transforms and every shape and in-range index the returned matrix maps output indices to the input index apply_orientation used; the output affine spells the code; bad code / <3-D / non-4x4 raise. All 2304 pairs + oblique rotations + strings of length 0-4 are run against the implementation every run.',
         design='DESIGN.md §7 C17', note=BASE_NOTE + ' nibabel io_orientation/apply_orientation/inv_ornt_aff are parameters with executable reference versions validated by the suite; oblique affines only through predicates.'),
+    'C01': dict(
+        technique='Lean 4 theorems (three-level merge is lossless for every key and grid; reversed file list follows flipped data; fill index arithmetic) + stack/merge/lookup correspondences + per-file oracle through the output affine',
+        text='For every S x T x V and every value pattern the per-key three-level merge of to_nifti(embed_meta) is proved to return at (s,t,v) what the file placed there said (convert_lookup_key and its 4-D / 3-D forms), the canonical file order is proved unique, the per-volume reversal is proved to put at output slice k the file whose pixels the flip moves there, and get_meta is proved to read the documented position (C08). On the implementation every source file of synthetic series (6 orientations + oblique, both directions, explicit / guessed ordering, shuffled adds, several voxel orders) is located through the output affine and every extracted non-filtered key compared.',
+        design='DESIGN.md §7 C01', note=BASE_NOTE + ' Composition of the per-key theorem with the stack model is by the correspondences (stack_shape, stack_history, merge, lookup), not by one end-to-end Lean theorem; extraction is ground truth here; float geometry locates voxels.'),
+    'C02': dict(
+        technique='Lean 4 theorems (fill index in range and injective, canonical order unique, reversal index, reorientation transform maps back for all 48 transforms and shapes) + pixel-exact oracle through the affine',
+        text='get_data file index arithmetic is proved a bijection between grid cells and files; for each of the 48 transforms and every shape the reorientation matrix maps output indices to source indices and the output orientation is the requested one; on the implementation every source pixel of labelled synthetic series is looked up at the index the output affine assigns to its DICOM patient position (LPS->RAS), each output voxel hit exactly once, dtype rule checked, for several voxel orders per series.',
+        design='DESIGN.md §7 C02', note=BASE_NOTE + ' nibabel DicomWrapper (pixel array orientation, rescale, affine) and binary64 rounding are trusted; exact only on the integer / axis-aligned lattice, atol 1e-3 for oblique series.'),
+    'C11': dict(
+        technique='Lean 4 iff theorem between get_shape (model) and the spelled-out acceptance conditions + soundness corollaries + refutation of the full-strength claim (F13) + sub-multiset search',
+        text='get_shape is proved to accept iff: non-empty, counts factor, spacing test passes, every volume block lists exactly the sorted distinct positions, every vector block is constant; hence n = S*T*V and each refusal condition of the property gives invalid. The claim that every volume has one time ordinate is refuted by a kernel-checked witness (F13). Sub-multisets (drop one/two, duplicate, drop volume/position, irregular gap), add-time refusals and the four queries are run on the implementation; model and implementation agree on acceptance, dims and canonical order.',
+        design='DESIGN.md §7 C11', note=BASE_NOTE + ' That a complete regular grid is always accepted is established by the search and the correspondence only (no Lean theorem yet); key guessing is not in the model.'),
+    'C12': dict(
+        technique='Lean 4 invariant proof over all op histories of the stack state machine (sort is a function of the multiset) + byte comparison of histories and hash seeds on the implementation',
+        text='For every add order and every finite history of get_shape/get_data/get_affine/to_nifti the file order a call builds its output from is proved to be a function of the file set and the call (history_independent), by an invariant over the dirty flag and permutation invariance of the two-stage sort. On the implementation random and targeted histories and add permutations are compared byte-wise with a fresh stack, and the same series is converted in processes with different PYTHONHASHSEED.',
+        design='DESIGN.md §7 C12', note=BASE_NOTE + ' The model covers file order and the dirty flag; numpy aliasing of the first file affine and header construction are runtime (covered by the byte comparison).'),
+    'C14': dict(
+        technique='Lean 4 theorems about regexFilter / filterMeta over the extracted default lists + differential correspondence + key-set oracle on conversions',
+        text='exclude-unless-included is proved for any matching relation; the extracted default lists are proved metacharacter-free and the default filter characterised by substring tests; extra lists compose by append; filter_meta is proved to remove exactly the told keys in every classification, leaving values, geometry and validity. Correspondence on random literal lists and keys (DICOM keyword dictionary, translator-prefixed, arbitrary); conversions compared with extracted-minus-filtered under default and custom filters.',
+        design='DESIGN.md §7 C14', note=BASE_NOTE + ' Python re is trusted for non-literal patterns (oracle only).'),
+    'C20': dict(
+        technique='Lean 4 theorems (axis permutation lemma for all 48 transforms, reversed list follows flipped data, TM string model) + header oracle on conversions + TM correspondence',
+        text='For each of the 48 transforms output axis permutation[i] is proved to carry source axis i (so the header slice axis is the stacking axis and freq/phase keep their world directions); slice times are read from the reversed list, proved to hold at position k the file shown at output slice k; colons are proved ignored, 2- and 4-digit TM forms proved for all digits, 6+-digit forms by kernel-evaluated instances and correspondence; the two Python functions are proved AST-identical by the translator. Header dim_info / pixdim[4] / slice times checked against geometry and source times for all acquisition patterns.',
+        design='DESIGN.md §7 C20', note=BASE_NOTE + ' nibabel set_slice_times / slice codes and binary64 rounding of the sum are trusted.'),
 }
 
 ALL = ['C%02d' % i for i in range(1, 21)]
